@@ -185,7 +185,7 @@ def setup(cw: CW, scenario: str):
         assert [g.invocation_id for g in got] == [iid]
         if scenario == "kill_running":
             orch.set_invocation_status(iid, St.RUNNING, cw.ctx("V"))
-        stub = types.SimpleNamespace(app=app, runner_context=cw.ctx("V"), logger=app.logger)
+        stub = world.RunnerStub(app=app, runner_context=cw.ctx("V"), logger=app.logger)
 
         def body():
             BaseRunner._kill_and_reroute(stub, iid)
